@@ -536,7 +536,7 @@ func (i *Interpreter) ProcessPass() error {
 	i.SetScope(context.PassScope)
 	i.passed = true
 
-	if i.ctx.Backend == nil {
+	if i.ctx.Backend == nil || (i.ctx.Backend.Value == nil && i.ctx.Backend.Director == nil) {
 		return exception.Runtime(nil, "No backend determined in PASS")
 	}
 
